@@ -651,7 +651,12 @@ class Scenario:
 
     @property
     def oracle_only(self):
-        return any(c != 'o' for c in self.closes) or any(c != 'o' for c in self.resets)
+        # ... and a request text with non-ASCII characters (Unicode whitespace padding that str.strip() removes): the
+        # Lean models' strip is ASCII-only, so these are judged by the statement-level oracle alone
+        def non_ascii(a):
+            return isinstance(a, str) and any(ord(ch) > 127 for ch in a)
+        return (any(c != 'o' for c in self.closes) or any(c != 'o' for c in self.resets)
+                or any(non_ascii(a) for _, args in self.calls for a in args))
 
 
 def jsonable(sc, creads, cwrites):
@@ -799,6 +804,8 @@ def request_string_scenarios(rng):
     # EBB commands) and synthetic ones; a name whose second character is punctuation
     reqs += ['T3', 'T3,1,0,0,0,0,0,0,3', 'S2,0,4,1,1', 'L3,1,2,3,4,5,6,7,8', 'S2', 'L3', 'Q1', 'A9,5', 'X0', 'q7,1', 'T_,1', 'T-']
     pads = [('', ''), (' ', ''), ('', '\r\n'), ('\t ', ' \n'), ('\x1f', '\x1c')]
+    # Unicode whitespace that str.strip() removes (the trimmed text is ASCII): NEL, NBSP, EM SPACE, LINE SEPARATOR, IDEOGRAPHIC SPACE
+    upads = [('\x85', ''), ('', '\xa0'), ('\u2003', '\u2028'), ('\u3000 ', '\t\xa0')]
     for req in reqs:
         name = req_name(req)
         replies = [name, name + ',5', req, name[0], name + 'Z', name[0] + 'Z,1', 'Z' + name, name + ' Err: x', '!Err: 1',
@@ -809,6 +816,10 @@ def request_string_scenarios(rng):
             for meth in ('command', 'query'):
                 yield Scenario(State(port=True), [('line', rep + '\r\n')] + [('empty',)] * 30, [],
                                [(meth, (pl + req + pr,))], 'reqstring')
+                if i < 4:       # the same exchange with Unicode-whitespace padding (oracle only)
+                    ul, ur = upads[(i + len(req)) % len(upads)]
+                    yield Scenario(State(port=True), [('line', rep + '\r\n')] + [('empty',)] * 30, [],
+                                   [(meth, (ul + req + ur,))], 'reqstring:unicode-ws')
                 # I/O exception classes (F10 names included)
         for meth in ('command', 'query'):
             for key in EXC_KEYS:
